@@ -173,6 +173,96 @@ example : instText (staticInst c!"l" [choiceOf [] [(c!"name", c!"a"), (c!"label"
     = c!"<instance id=\"l\"><root><item><name>a</name><label>A &amp; b</label></item></root></instance>" := by decide +kernel
 example : (Xml.Node.elem c!"model" [] ([pulldataInst c!"pd", staticInst c!"l" []].map instNode)).WF = true := by decide +kernel
 
+/-! ## guards discharged from the data: well-formedness of the instance elements, list names from cells -/
+
+section
+open Pyxv.Xml
+
+/-- data-level well-formedness of one emitted instance: id and URI survive attribute-value normalisation, the
+    item children are XML names (the choices sheet's extra column headers) and the cell texts XML characters -/
+def instOk (i : Inst) : Bool :=
+  i.name.all attrCharOk && (match i.src with | some u => u.all attrCharOk | none => true) &&
+  i.items.all fun it => it.all fun kv => isName kv.1 && kv.2.all textCharOk
+
+theorem WFKids_map {α} (g : α → Node) (l : List α) (h : ∀ x ∈ l, (g x).WF = true) : WFKids (l.map g) = true := by
+  induction l with
+  | nil => simp [WFKids]
+  | cons x rest ih =>
+    simp only [List.map_cons, WFKids, Bool.and_eq_true]
+    exact ⟨h x (by simp), ih (fun y hy => h y (by simp [hy]))⟩
+
+theorem WFKids_append (a b : List Node) : WFKids (a ++ b) = (WFKids a && WFKids b) := by
+  induction a with
+  | nil => simp [WFKids]
+  | cons x rest ih => simp [WFKids, ih, Bool.and_assoc]
+
+theorem wf_instNode (i : Inst) (h : instOk i = true) : (instNode i).WF = true := by
+  simp only [instOk, Bool.and_eq_true] at h
+  obtain ⟨⟨hn, hs⟩, hi⟩ := h
+  unfold instNode
+  cases hsrc : i.src with
+  | some u =>
+    rw [hsrc] at hs
+    have h1 : isName c!"instance" = true := by decide
+    have h2 : isName c!"id" = true := by decide
+    have h3 : isName c!"src" = true := by decide
+    simp [Node.WF, WFKids, attrsWF, attrKeysNodup, h1, h2, h3, hn, hs]
+  | none =>
+    have h1 : isName c!"instance" = true := by decide
+    have h2 : isName c!"id" = true := by decide
+    have h4 : isName c!"root" = true := by decide
+    have h5 : isName c!"item" = true := by decide
+    have hk : WFKids (i.items.map fun it => Node.elem c!"item" [] (it.map fun kv => Node.elem kv.1 [] [.text false kv.2])) = true := by
+      apply WFKids_map
+      intro it hit
+      have hit' := List.all_eq_true.mp hi it hit
+      simp only [Node.WF, h5, attrsWF, attrKeysNodup, List.all_nil, Bool.and_self, Bool.true_and]
+      apply WFKids_map
+      intro kv hkv
+      have := List.all_eq_true.mp hit' kv hkv
+      simp only [Bool.and_eq_true] at this
+      simp [Node.WF, WFKids, attrsWF, attrKeysNodup, this.1, this.2]
+    simp [Node.WF, WFKids, attrsWF, attrKeysNodup, h1, h2, h4, hn, hk]
+
+/-- the list names are list-name cells of the sheet: a condition on those cells holds for every list name -/
+theorem list_names_from_cells (key : Str) (rows : List Cells) (P : Str → Prop)
+    (h : ∀ r ∈ rows, ∀ v, lookup key r = some v → P v) : ∀ l ∈ Spec.listNames key rows, P l := by
+  have hsub : ∀ gs : List Str, ∀ l ∈ Spec.dedup gs, l ∈ gs := by
+    intro gs
+    induction gs with
+    | nil => intro l hl; simp [Spec.dedup] at hl
+    | cons g rest ih =>
+      intro l hl
+      simp only [Spec.dedup, List.mem_cons, List.mem_filter] at hl
+      rcases hl with rfl | ⟨hl, _⟩
+      · simp
+      · exact List.mem_cons_of_mem _ (ih l hl)
+  intro l hl
+  have := hsub _ l hl
+  obtain ⟨r, hr, hv⟩ := List.mem_filterMap.mp this
+  exact h r hr l hv
+
+/-- `document_ids_unique` with its well-formedness guard discharged for the instance elements from the data
+    (`instOk` of every emitted instance); what remains is the well-formedness of the *other* children of `<model>`. -/
+theorem document_ids_unique_data (is out : List Inst) (h : emitInsts [] is = some out)
+    (attrs : List (Str × Str)) (pre post : List Node)
+    (hpre : ∀ k ∈ pre, isElem k = true) (hpost : ∀ k ∈ post, isElem k = true)
+    (npre : pre.filterMap instanceId = []) (npost : post.filterMap instanceId = [])
+    (hattrs : attrsWF attrs = true) (wpre : WFKids pre = true) (wpost : WFKids post = true)
+    (hok : ∀ i ∈ out, instOk i = true) :
+    ∃ doc, parseDoc (renderDoc false (.elem c!"model" attrs (pre ++ out.map instNode ++ post))) = some doc ∧
+      instanceIds doc = out.map (·.name) ∧ (instanceIds doc).Nodup := by
+  apply document_ids_unique is out h attrs pre post hpre hpost npre npost
+  have hm : isName c!"model" = true := by decide
+  simp only [Node.WF, hm, hattrs, WFKids_append, wpre, wpost, Bool.true_and, Bool.and_true]
+  exact WFKids_map _ _ (fun i hi => wf_instNode i (hok i hi))
+
+example : instOk (staticInst c!"l" [choiceOf [] [(c!"name", c!"a"), (c!"label", c!"A  & b"), (c!"x", c!"1")]]) = true := by
+  decide +kernel
+example : instOk (staticInst c!"a\tb" []) = false := by decide +kernel
+
+end
+
 /-! ## search(): inline items only -/
 
 /-- A list gets a static instance exactly when no `search()` select consumes it. -/
